@@ -37,13 +37,31 @@ def check(run: Run, prog: Program, model: Model, tier: str) -> None:
     run.explanation += ' RENDER-TOTAL: str()/repr()/f-string conversion of an error field that the validator fills from the validated value, with a kind that can hold an int of unbounded size, raises ValueError beyond sys.get_int_max_str_digits(); it must be handled. Lengths and loop indices are bounded. Format specs are partial operations.'
     run.rule_text = ("obligations: (visitor method, prop-set/shape) for TOTAL; (formatter method, value kind) for FORMAT-TOTAL; "
                      "clauses of validate_or_fail; non-trivial = at least one partial operation was judged on the paths")
+    from ..entry import entry_transparent
+    entry_transparent(run, prog, model, "validate", "VALIDATE-ENTRY")
     run.trusted += ["partial-operation table of DESIGN appendix A", "comparison / len / in / iteration are total on built-in kinds "
                     "and their plain subclasses", "re.search with a pattern that compiled at declaration does not raise"]
-    unroll = 1 if tier == "quick" else 2
     err_kinds: Dict[str, Set[str]] = {}
     prov: Dict[Tuple[str, str], Set[Tuple[str, Optional[str]]]] = {}
+    npaths = total_obligations(run, prog, model, tier, VALIDATORS, err_kinds, prov)
+    run.analysed["validator_paths"] = npaths
+    run.floor("TOTAL", 150)
+    _formatter(run, prog, model, err_kinds, prov)
+    _or_fail(run, prog, model)
+    # "returns True exactly when there are no errors" reads the result through has_errors() / get_errors()
+    from .c02 import _result_acc
+    _result_acc(run, prog, model, "RESULT-ACC")
+
+
+def total_obligations(run: Run, prog: Program, model: Model, tier: str, validators: Any,
+                      err_kinds: Optional[Dict[str, Set[str]]] = None,
+                      prov: Optional[Dict[Tuple[str, str], Set[Tuple[str, Optional[str]]]]] = None) -> int:
+    """TOTAL for the given validator classes (also used by C12 for the validator the substitutor runs)."""
+    unroll = 1 if tier == "quick" else 2
+    err_kinds = {} if err_kinds is None else err_kinds
+    prov = {} if prov is None else prov
     npaths = 0
-    for vis in VALIDATORS:
+    for vis in validators:
         for hook, f in model.visit_methods(vis).items():
             st = model.by_hook[hook]
             for cfg in configs_for(st, tier):
@@ -91,10 +109,7 @@ def check(run: Run, prog: Program, model: Model, tier: str) -> None:
                     run.undecided("TOTAL", construct, f.loc, "; ".join(sorted(set(und)))[:300])
                 else:
                     run.holds("TOTAL", construct, f.loc, f"{len(paths)} paths, {judged} partial operations judged total", nontrivial=judged > 0)
-    run.analysed["validator_paths"] = npaths
-    run.floor("TOTAL", 150)
-    _formatter(run, prog, model, err_kinds, prov)
-    _or_fail(run, prog, model)
+    return npaths
 
 
 _FROM_VALUE = re.compile(r"(?<![\w.])value\b")
